@@ -2733,7 +2733,8 @@ def convert_shape_op_to_constant_tensor(op: Operation, arch, nng):
         op.type = Op.Const
 
         # Add size calculation to shape output tensors
-        ofm.values = np.array(ifm.shape)
+        # (in the element type of the output tensor: the values are written to the file as they are)
+        ofm.values = np.array(ifm.shape, dtype=ofm.dtype.as_numpy_type())
 
     return op
 
